@@ -60,6 +60,16 @@ func (cw *chaosWorld) predict(n *chaosNode, call string, idx int) (class string,
 			return "state", true
 		}
 		return "nil", false
+	case "StartShortSeed":
+		// documented: refused while running; a dealer refuses a too short seed with an
+		// invalid-input error and does not start; a non-dealer ignores the seed
+		if n.m.ph == running {
+			return "state", true
+		}
+		if cw.World.isDealer(n.idx) {
+			return "input", true
+		}
+		return "nil", false
 	case "NextTimeout":
 		if cw.proto == FVSS {
 			return "nil", false // no timeouts in plain Feldman VSS: documented no-op
@@ -90,7 +100,7 @@ func (cw *chaosWorld) predict(n *chaosNode, call string, idx int) (class string,
 
 func (cw *chaosWorld) apply(n *chaosNode, call string) {
 	switch call {
-	case "Start":
+	case "Start", "StartShortSeed":
 		n.m.ph = running
 		n.m.timeouts = 0
 	case "NextTimeout":
@@ -279,10 +289,7 @@ func chaosPass(c *choice.Src, o engine.Opt, out *engine.Out, skip bool) *chaosWo
 	if raw {
 		wRaw = 1 + c.Choose(6, "w.raw")
 	}
-	wShortSeed := 0
-	if o.Property == "C09" {
-		wShortSeed = c.Choose(2, "w.shortseed")
-	}
+	wShortSeed := c.Choose(2, "w.shortseed")
 	// out-of-range indices, incl. values that wrap to a valid participant when converted to a byte
 	badIdx := []int{-1, w.n, 255, 256, 1<<31 - 1, -1 << 31, 256 + w.dealer, 256 + c.Choose(w.n, "badidx.wrap"), 512 + w.dealer, 1 << 16, -256 + w.dealer, w.n + 1}
 	for s := 0; s < steps; s++ {
@@ -325,6 +332,12 @@ func chaosPass(c *choice.Src, o engine.Opt, out *engine.Out, skip bool) *chaosWo
 				// a second Start is refused whatever its argument
 				l := []int{0, 1, 31}[c.Choose(3, "start.shortseed.len")]
 				cw.do(n, "Start", 0, nil, func() error { return n.st.Start(make([]byte, l)) })
+				break
+			}
+			if n.m.ph == running && c.Bool(1, 2, "start.otherseed") {
+				// ... also with another VALID seed (a refused Start must not re-derive anything)
+				other := c.Sub("start.otherseed.bytes").Bytes(32)
+				cw.do(n, "Start", 0, nil, func() error { return n.st.Start(other) })
 				break
 			}
 			cw.do(n, "Start", 0, nil, func() error { return n.st.Start(w.seeds[n.idx]) })
@@ -377,20 +390,16 @@ func chaosPass(c *choice.Src, o engine.Opt, out *engine.Out, skip bool) *chaosWo
 			} else {
 				cw.do(n, "HandlePrivateMsg", idx, data, func() error { return n.st.HandlePrivateMsg(idx, data) })
 			}
-		case 7: // Start with a too short seed (C09 only; afterwards the node is not modelled)
-			if n.m.ph != idle {
+		case 7: // Start with a too short seed
+			if n.m.ph == ended || n.m.ph == unknown {
 				continue
 			}
 			l := []int{0, 1, 16, 31}[c.Choose(4, "shortseed.len")]
 			w.fault("lifecycle.start_short_seed")
-			err, _ := w.call(n.Node, "Start(short seed)", func() error { return n.st.Start(make([]byte, l)) })
-			w.ev("node %d Start(seed of %d bytes) -> %s", n.idx, l, errClass(err))
-			if err != nil {
-				n.m.ph = unknown
-			} else {
-				n.m.ph = running
+			if n.m.ph == idle {
+				n.round = 1
 			}
-			n.round = 1
+			cw.do(n, "StartShortSeed", 0, nil, func() error { return n.st.Start(make([]byte, l)) })
 		}
 	}
 	return cw
